@@ -299,6 +299,19 @@ Definition validate_local (d : YDT) (s : option bytes) : bool :=
   | _ => true
   end.
 
+(* validity of a whole field tree (validate_field recursing into children): what a foreign field
+   object passed as a schema value has to satisfy at every depth *)
+Fixpoint valid_y (f : YField) : bool :=
+  match f with
+  | mkY _ d _ _ s =>
+    match s with Some st => known_strategy st | None => true end && validate_local d s &&
+    match d with
+    | YFixedList _ c | YMap c | YList c | YLargeList c => valid_y c
+    | YStruct fs | YUnion fs => (fix go (fs : list YField) : bool := match fs with [] => true | c :: r => valid_y c && go r end) fs
+    | _ => true
+    end
+  end.
+
 Definition dup_key (kvs : list (bytes * JV)) : bool :=
   existsb (fun k => Nat.ltb 1 (count_key (b k) kvs)) ["name"; "data_type"; "nullable"; "strategy"; "children"; "metadata"]%string.
 
